@@ -517,8 +517,8 @@ func executeMode(c *hx.Ctx, w world, u []lspec, h []act, concurrent int, startup
 	res := &result{flinks: fl, held: heldKeys, startup: startup}
 	step := 0
 	heff, effIdx, earlyActs := effective(h)
-	ambiguous := ambiguousEarly(u, earlyActs)
-	res.ambiguous = ambiguous
+	res.ambiguous = ambiguousEarly(u, earlyActs)
+	ambiguous := len(earlyActs) > 0 // an early callback may also be refused: no per-request live oracle
 	apply := func(a act) []int {
 		switch a.kind {
 		case 0:
@@ -725,12 +725,53 @@ func eqInts(a, b []int) bool {
 }
 
 // oracle checks the C06 statement directly on the observed tables.
+type ofail struct{ key, what string }
+
+// oracle checks the property's reading of the tables.  A HandleLinkEstablished
+// call made before the constructor returned may legitimately be refused (its
+// lock region can run after the constructor returned but before Execute stored
+// its handles: "link established while transport exited, closing link"): every
+// choice of refused early calls is tried, a refused link must be closed and absent.
 func oracle(c *hx.Ctx, u []lspec, h []act, r *result) {
 	d := descHist(u, h)
 	if r.ambiguous {
 		return
 	}
-	h, _, _ = effective(h)
+	heff, _, early := effective(h)
+	var first []ofail
+	for mask := 0; mask < 1<<uint(len(early)); mask++ {
+		var hv []act
+		refused := map[int]bool{}
+		k := 0
+		for _, a := range heff {
+			if a.kind == 0 && a.early {
+				if mask&(1<<uint(k)) != 0 {
+					refused[a.p] = true
+					k++
+					continue
+				}
+				k++
+			}
+			hv = append(hv, a)
+		}
+		fs := oracleVariant(u, hv, refused, r)
+		if len(fs) == 0 {
+			return
+		}
+		if mask == 0 {
+			first = fs
+		}
+	}
+	for _, f := range first {
+		c.Fail(f.key, f.what, d)
+	}
+}
+
+func oracleVariant(u []lspec, h []act, refused map[int]bool, r *result) (out []ofail) {
+	failf := func(key string, _ any, format string, a ...any) {
+		out = append(out, ofail{key, fmt.Sprintf(format, a...)})
+	}
+	var d any
 	live, est := specLive(u, h)
 	isLive := map[int]bool{}
 	for _, q := range live {
@@ -747,12 +788,12 @@ func oracle(c *hx.Ctx, u []lspec, h []act, r *result) {
 		got := append([]int{}, r.gpl[z]...)
 		sort.Ints(got)
 		if !eqInts(got, want) {
-			c.Failf("reported-ne-live", d, "GetPeerLinks(peer %d) = %v but the links established and not yet lost are %v", z, got, want)
+			failf("reported-ne-live", d, "GetPeerLinks(peer %d) = %v but the links established and not yet lost are %v", z, got, want)
 		}
 		bp := append([]int{}, r.byPeer[z]...)
 		sort.Ints(bp)
 		if !eqInts(bp, want) {
-			c.Failf("index-ne-live", d, "linksByPeerID[peer %d] = %v but the links established and not yet lost are %v", z, bp, want)
+			failf("index-ne-live", d, "linksByPeerID[peer %d] = %v but the links established and not yet lost are %v", z, bp, want)
 		}
 	}
 	closed := map[int]bool{}
@@ -774,20 +815,26 @@ func oracle(c *hx.Ctx, u []lspec, h []act, r *result) {
 			}
 		}
 	}
+	for q := range refused {
+		if !closed[q] && !est[q] {
+			failf("refused-link-not-closed", d, "link %d was reported before the controller executed and is not in the tables, but was not closed", q)
+		}
+	}
 	for q := range est {
 		if !isLive[q] && !closed[q] {
-			c.Failf("dead-link-not-closed", d, "link %d was established and is no longer live but Close was never called", q)
+			failf("dead-link-not-closed", d, "link %d was established and is no longer live but Close was never called", q)
 		}
 		if isLive[q] && closed[q] && !everDead[q] {
-			c.Failf("live-link-closed", d, "link %d is established and not lost but was closed", q)
+			failf("live-link-closed", d, "link %d is established and not lost but was closed", q)
 		}
 	}
 	for q, l := range u {
 		if l.remote == 1 && est[q] && !closed[q] {
-			c.Failf("self-dial-not-closed", d, "self-dial link %d was not closed", q)
+			failf("self-dial-not-closed", d, "self-dial link %d was not closed", q)
 		}
 		_ = l
 	}
+	return out
 }
 
 func emitHist(c *hx.Ctx, u []lspec, h []act, r *result) {
